@@ -6,7 +6,17 @@ import (
 	"strings"
 )
 
-func collapse(s string) string { return strings.Join(strings.Fields(s), " ") }
+// collapse normalises source text: comment-only lines dropped, whitespace collapsed.
+func collapse(s string) string {
+	var keep []string
+	for _, l := range strings.Split(s, "\n") {
+		if strings.HasPrefix(strings.TrimSpace(l), "//") {
+			continue
+		}
+		keep = append(keep, l)
+	}
+	return strings.Join(strings.Fields(strings.Join(keep, "\n")), " ")
+}
 
 func (x *Ex) bodyText(stmts []ast.Stmt) string {
 	var parts []string
